@@ -206,11 +206,11 @@ impl<T> NFA<T> {
     }
 
     /// For `a` regular expression it is equivalent to `a?`
-    pub fn optional(mut self) -> Self {
-        if let Some(start) = self.states.get_mut(&self.start) {
-            start.epsilons.insert(self.stop);
-        }
-        self
+    pub fn optional(self) -> Self {
+        // NOTE: start -> stop epsilon edge can not be added in place, if start state
+        //       has incoming edges or stop state has outgoing edges it accepts more
+        //       than `a?`, for example `(a+b)?` would accept `a`.
+        Self::choice([self, Self::empty()])
     }
 
     /// For `a` regular expression it is equivalent to `a*`
